@@ -24,11 +24,30 @@ import (
 	"time"
 )
 
-const (
-	verifDir   = "/verif"
-	harnessDir = "/verif/harness"
-	goTool     = "go1.26.8"
-)
+const goTool = "go1.26.8"
+
+// verifDir is the root of the verification tree: $VERIF_DIR, else the parent of
+// the directory holding this executable (bin/vcheck), else /verif. A background
+// run from a snapshot of /verif therefore works on the snapshot.
+var verifDir, harnessDir = func() (string, string) {
+	d := os.Getenv("VERIF_DIR")
+	if d == "" {
+		if exe, err := os.Executable(); err == nil {
+			if p := filepath.Dir(filepath.Dir(exe)); fileExists(filepath.Join(p, "harness", "go.mod")) {
+				d = p
+			}
+		}
+	}
+	if d == "" {
+		d = "/verif"
+	}
+	return d, filepath.Join(d, "harness")
+}()
+
+func fileExists(p string) bool {
+	_, err := os.Stat(p)
+	return err == nil
+}
 
 type rec struct {
 	K      string                 `json:"k"`
